@@ -37,7 +37,7 @@ tvars == <<vars, l, wcid, pt>>
 Ev == Trace[l]
 IsEvent(e) == l <= Len(Trace) /\ Ev.ev = e /\ l' = l + 1
 
-TimeoutSlackMs == 5600
+TimeoutSlackMs == 6500
 
 TraceInit == l = 1 /\ Init /\ wcid = [i \in 1..5 |-> 0] /\ pt = FALSE
 
